@@ -28,7 +28,7 @@ def run_edges(ctx, want_trace=True):
     else:
         runs.append(("all", dict(base, MaxObjs=2, MaxDepth=1, Slice=0, NSlices=1), None))
         runs.append(("pairs", {"SeqMode": "TRUE", "MaxObjs": 1, "MaxDepth": 2, "Slice": 0, "NSlices": 1}, None))
-        runs.append(("sequences", dict(base, MaxObjs=2, MaxDepth=3, Slice=0, NSlices=1), "num=400"))
+        runs.append(("sequences", dict(base, MaxObjs=2, MaxDepth=3, Slice=0, NSlices=1), "num=40"))
     for name, consts, sim in runs:
         r = ctx.run_tlc("TransformsMC", "TransformsMC.cfg", workers=16, timeout=2400, constants=consts,
                         simulate=sim, depth=4 if sim else None)
